@@ -10,6 +10,21 @@ GROUPS = {
     "D": ["C05", "C06", "C07", "C03", "C14"], "E": ["C03", "C06", "C14"], "F": ["C04", "C06", "C10", "C11", "C12"],
     "G": ["C12", "C13", "C10"], "H": ["C14", "C06"],
 }
+# besides the fixed groups: every property one of whose units extracts code from a file the change touches
+import json
+_CFG = json.load(open(ROOT + "/checks.json"))
+def _unit_files(u):
+    try:
+        return set(re.findall(r"^//@(?:fn|type|const|consts)\s+(\S+\.rs)\s+::", open(f"{ROOT}/contracts/{u}.vc.rs").read(), re.M))
+    except OSError:
+        return set()
+def props_for(bid):
+    touched = set(re.findall(r"^\+\+\+ b/(\S+)", open(f"{ROOT}/benign/{bid}/patch.diff").read(), re.M))
+    out = list(GROUPS[bid.split("-")[0]])
+    for pid, c in sorted(_CFG.items()):
+        if pid not in out and any(_unit_files(u) & touched for u in c.get("units", [])):
+            out.append(pid)
+    return out
 ids = sys.argv[1:] or sorted(os.path.basename(d.rstrip("/")) for d in glob.glob(ROOT + "/benign/*-b*/"))
 assert subprocess.run(f"git -C {REPO} status --porcelain", shell=True, stdout=subprocess.PIPE, text=True).stdout.strip() == "", "/repo not clean"
 rows = []
@@ -19,7 +34,7 @@ for bid in ids:
         rows.append((bid, "-", "patch does not apply", ""))
         continue
     try:
-        for pid in GROUPS[bid.split("-")[0]]:
+        for pid in props_for(bid):
             r = subprocess.run([ROOT + "/check", pid], stdout=subprocess.PIPE, stderr=subprocess.STDOUT, text=True)
             out = r.stdout
             if r.returncode == 0:
@@ -32,7 +47,7 @@ for bid in ids:
                 rows.append((bid, pid, "UNDECIDED (exit 2)", (m.group(1)[:200] if m else "")))
             print(rows[-1], flush=True)
     finally:
-        subprocess.run(f"git -C {REPO} checkout -- .", shell=True)
+        subprocess.run(f"git -C {REPO} apply -R {ROOT}/benign/{bid}/patch.diff 2>/dev/null; git -C {REPO} checkout -- .", shell=True)
 if sys.argv[1:] and os.path.exists(ROOT + "/benign/RESULTS.md"):
     # partial run: merge into the existing table (rows are keyed by change and property)
     old = {}
